@@ -78,7 +78,7 @@ def check_get_offsets(ctx, db):
     for labels, stmts, top in tables.switch_arms(swc):
         r = next((x for s in stmts for x in s.walk() if x.k == 'ReturnStmt'), None)
         for l in labels:
-            count_expr[l] = r.child('value').text().replace('<IntegralCast:unsigned long>', '') if r is not None else None
+            count_expr[l] = re.sub(r'<IntegralCast:[^>]*>', '', r.child('value').text()) if r is not None else None
     names = {v: k for k, v in vals.items()}
     n = 0
     for labels, stmts, top in tables.switch_arms(sw):
@@ -144,7 +144,7 @@ def corner_of(e, fn, kind, depth=0):
 
     def coef(x):
         x = _strip_casts(x)
-        t = x.text().replace('<IntegralCast:unsigned long>', '').replace('<IntegralToFloating:double>', '')
+        t = re.sub(r'<Integral(Cast|ToFloating):[^>]*>', '', x.text())
         t = re.sub(r'^\(double\)', '', t)
         return {'(this->columns - 1)': 'C', '(this->rows - 1)': 'R'}.get(t, t)
     if e.k in ('CXXFunctionalCastExpr', 'InitListExpr', 'CXXConstructExpr', 'CXXTemporaryObjectExpr'):
